@@ -192,6 +192,9 @@ type Call struct {
 	Carried []Carry // ghost payload of the message being delivered (continuations / refunds)
 	Mint    bool    // system-contract credit
 	Fault   bool    // a dependency fault was injected into this call
+	// AbsentAddr/AbsentKey: a storage read of this key of this account failed (fail-soft fault)
+	AbsentAddr []byte
+	AbsentKey  string
 }
 
 // Violation is one broken oracle clause with the properties whose statement it contradicts.
